@@ -193,14 +193,28 @@ def suite_server(ctx):
     from harness import c05
     rng = ctx.rng
     cases = [c for c in c05.special_fixed_cases(rng) if c["suite"] in ("ws", "upgrade")]
-    gens = (c05.gen_badenc_case, c05.gen_ws_case, c05.gen_upgrade_case)
-    for k in range(45 if ctx.quick else 900):
+    gens = (c05.gen_badenc_case, c05.gen_ws_case, c05.gen_upgrade_case, c05.gen_upgrade_body_case)
+    for k in range(60 if ctx.quick else 1200):
         cases.append(gens[k % len(gens)](rng))
+    # directed: an Upgrade request with a body whose handler reads it, the body split from the head at every offset
+    for first in range(0, 6):
+        for together in (False, True):
+            c = c05.gen_upgrade_body_case(rng, fixed=(first, together))
+            c["beh"] = {"0": {"kind": "read"}}
+            c["c01_body_split"] = True
+            cases.append(c)
     for c in cases:
         r = c05.run_impl(c, shadow=False)
         ctx.case(("server", c["suite"], tuple(r["snaps"])), nontrivial=r["complete"] > 0)
         ctx.count("server:" + c["suite"])
-        for vkind, text in r["bad"]:
+        bad = list(r["bad"])
+        last = r["snaps"][-1] if r["snaps"] else ""
+        if c.get("c01_body_split") and r["complete"] == 0 and "closed=0" in last and "pc=handler0" in last:
+            # every byte of the announced body was delivered, yet the handler that reads it never finishes:
+            # the body bytes were not taken for this request's body
+            bad.append(("body-not-delivered", "an Upgrade request's Content-Length body, delivered in a later read than its "
+                        f"head, never reaches the handler reading it (final state: {last})"))
+        for vkind, text in bad:
             cc = dict(c)
             cc["vkind"] = vkind
             cc["c01_server_case"] = True
@@ -212,7 +226,9 @@ def replay(ctx, case):
     if case.get("c01_server_case"):
         from harness import c05
         r = c05.run_impl(case, shadow=False)
-        return {"bad": r["bad"], "violates": bool(r["bad"])}
+        last = r["snaps"][-1] if r["snaps"] else ""
+        stuck = bool(case.get("c01_body_split") and r["complete"] == 0 and "closed=0" in last and "pc=handler0" in last)
+        return {"bad": r["bad"], "body_not_delivered": stuck, "final": last, "violates": bool(r["bad"]) or stuck}
     ok, exe = H.build_model()
     s, lim = bytes.fromhex(case["stream"]), tuple(case["lim"])
     sp = spec_run_many(exe, [(s, lim)])[0]
